@@ -1,6 +1,7 @@
 (* Properties/C04.v — derived Hash is a function of the value that respects Equal.
    Statements only; proofs in Go/HashProofs.v. *)
-From Verif Require Import Go.Ty Go.Val Go.Equal Go.Compare Go.Hash Go.HashProofs.
+From Verif Require Import Go.Ty Go.Val Go.Equal Go.Compare Go.Hash Go.HashProofs Go.Invariance Go.HashTotal.
+From Coq Require Import Permutation.
 
 (* For every type and all well-typed values: structurally equal values (a value and its clone,
    equal contents at different addresses, maps populated in different orders, slices with
@@ -34,3 +35,35 @@ Theorem C04_hash_bytes_old_refuted :
      <> hash_model (TSt [(false, TSl (TB (KInt 8 false)))]) (VSt [VSl 1 [] []]).
 Proof. exact hash_bytes_old_refuted. Qed.
 Print Assumptions C04_hash_bytes_old_refuted.
+
+(* The model is defined on every well-typed value: a number, or the generator's refusal of the type
+   (a map key type that cannot be sorted) - never a panic, never "stuck".  The equations above are
+   therefore equations between numbers for every supported type. *)
+Theorem C04_hash_total : forall e t x, has_type e t x = true ->
+  (exists n, hashm e t x = Ok n) \/ hashm e t x = Unsup.
+Proof. exact hash_total. Qed.
+Print Assumptions C04_hash_total.
+
+(* clause by clause: equal contents at different addresses, slices with different spare capacity
+   (erase forgets every address label and every spare element) ... *)
+Theorem C04_hash_ignores_addresses_and_capacity : forall e t x y,
+  has_type e t x = true -> has_type e t y = true -> erase x = erase y -> hashm e t x = hashm e t y.
+Proof. exact hash_erase. Qed.
+Print Assumptions C04_hash_ignores_addresses_and_capacity.
+
+Theorem C04_hash_of_relocated_copy : forall e t x, has_type e t x = true -> hashm e t (erase x) = hashm e t x.
+Proof. exact hash_of_erased. Qed.
+Print Assumptions C04_hash_of_relocated_copy.
+
+(* ... maps populated in different orders ... *)
+Theorem C04_hash_ignores_map_order : forall e t l l' xm xm',
+  has_type e t (VMap l xm) = true -> has_type e t (VMap l' xm') = true ->
+  Permutation xm xm' -> hashm e t (VMap l xm) = hashm e t (VMap l' xm').
+Proof. exact hash_map_perm. Qed.
+Print Assumptions C04_hash_ignores_map_order.
+
+(* ... +0 and -0 *)
+Theorem C04_hash_zero_sign : forall k (n1 n2 : bool),
+  (k = KF32 \/ k = KF64) -> hashm [] (TB k) (VF n1 0) = hashm [] (TB k) (VF n2 0).
+Proof. exact hash_zero_sign. Qed.
+Print Assumptions C04_hash_zero_sign.
